@@ -220,6 +220,7 @@ class Unit:
         self.rewrites = {}
         self.subs_applied = []
         self.canaries = []       # (label, fn_name, regex, repl, emitted_fn_index)
+        self.drop_hints = set()  # fn ids whose proof hints / loop invariants are to be left out
         self.trusted_scan = []
 
     def expand_defs(self, line):
@@ -471,6 +472,9 @@ class Unit:
                 sigline += ' -> (%s: %s)' % (rname, ret)
         if where:
             sigline += '\n    ' + where
+        if fnid in self.drop_hints:
+            loops, befores = {}, []
+            lost.append('all proof hints dropped (they no longer type-check against the changed body)')
         start_line = len(self.out) + 1
         self.emit('// ---- extracted: %s %s (line %d), sha256/16=%s' % (rel, name, f['line'], rsx.sha(orig)),
                   fn=fnid, kind='sig')
